@@ -39,6 +39,18 @@ type tmpl struct {
 	bound  []int
 	fn     int
 	script []sop
+	spare  int // extra capacity of the bound-argument slice handed to Subscribe (def ... x=<spare>)
+}
+
+// boundArgs builds the slice passed as `args...` to the Subscribe family: pre ++ xs with `spare` unused slots behind
+// (cap > len when spare > 0: the centre must not write into those slots, see D25)
+func boundArgs(pre []interface{}, xs []int, spare int) []interface{} {
+	out := make([]interface{}, 0, len(pre)+len(xs)+spare)
+	out = append(out, pre...)
+	for _, x := range xs {
+		out = append(out, x)
+	}
+	return out
 }
 
 type centre struct {
@@ -313,11 +325,9 @@ func (k *kase) runOp(o sop) {
 			// code pointers 8..15 identify their (single) template; the shared ones 0..7 carry a hidden tag argument
 			var args []interface{}
 			if tm.fn%16 < 8 {
-				// capacity = length: the harness itself must not hand over a slice with room to spare
-				args = make([]interface{}, 0, 1+len(tm.bound))
-				args = append(append(args, tagArg{o.t}), toArgs(tm.bound)...)
+				args = boundArgs([]interface{}{tagArg{o.t}}, tm.bound, tm.spare)
 			} else {
-				args = toArgs(tm.bound)
+				args = boundArgs(nil, tm.bound, tm.spare)
 				k.fnTag[tm.fn%16] = o.t
 			}
 			if o.g {
@@ -326,9 +336,9 @@ func (k *kase) runOp(o sop) {
 				id = c.lt.Subscribe(k.name(o.e), lightFns[tm.fn%16], args...)
 			}
 		} else if o.g {
-			id = c.loc.GSubscribe(k.name(o.e), k.localCB(o.t), toArgs(tm.bound)...)
+			id = c.loc.GSubscribe(k.name(o.e), k.localCB(o.t), boundArgs(nil, tm.bound, tm.spare)...)
 		} else {
-			id = c.loc.Subscribe(k.name(o.e), k.localCB(o.t), toArgs(tm.bound)...)
+			id = c.loc.Subscribe(k.name(o.e), k.localCB(o.t), boundArgs(nil, tm.bound, tm.spare)...)
 		}
 		k.realID[o.t] = id
 		k.tagCtr[o.t] = o.c
@@ -410,10 +420,9 @@ func (k *kase) runOp(o sop) {
 		k.used[o.t] = true
 		var args []interface{}
 		if tm.fn%16 < 8 {
-			args = make([]interface{}, 0, 1+len(tm.bound))
-			args = append(append(args, tagArg{o.t}), toArgs(tm.bound)...)
+			args = boundArgs([]interface{}{tagArg{o.t}}, tm.bound, tm.spare)
 		} else {
-			args = toArgs(tm.bound)
+			args = boundArgs(nil, tm.bound, tm.spare)
 			k.fnTag[tm.fn%16] = o.t
 		}
 		id := c.lt.SubscribeWithReceiver(k.name(o.e), k.receiver(o.r), lightFns[tm.fn%16], args...)
@@ -613,7 +622,10 @@ var rsNo int
 
 // rsCase: a real StandardRunService owns the centre; global publications must be
 // delivered in order on its loop goroutine; Stop (Clear) deregisters.
-func rsCase(n int) string {
+// burst > 0: Stop arrives while the owner is busy inside a listener and `burst` further publications (global and
+// local channel-mode ones alternating) are still queued: none of them may reach the listener any more (Stop clears
+// the centre first), and whatever is invoked is invoked on the loop goroutine only.
+func rsCase(n, burst int) string {
 	rsNo++
 	s := runservice.NewStandardRunService(fmt.Sprintf("c17rs-%d-%d", caseNo, rsNo))
 	s.Start()
@@ -621,20 +633,36 @@ func rsCase(n int) string {
 	name := fmt.Sprintf("rs%d-%d", caseNo, rsNo)
 	me := goid()
 	var mu sync.Mutex
-	got, owner := 0, uint64(0)
+	got, late, owner := 0, 0, uint64(0)
 	ownerOK := true
+	gate := make(chan struct{})
+	entered := make(chan struct{}, 1)
 	ec.GSubscribe(name, func(args ...interface{}) {
 		g := goid()
 		mu.Lock()
-		defer mu.Unlock()
-		if owner == 0 {
+		if owner == 0 && g != me {
 			owner = g
 		}
 		if g != owner || g == me {
 			ownerOK = false
 		}
-		if len(args) == 2 && args[0] == 77 && args[1] == got {
-			got++
+		v := 0
+		if len(args) == 2 && args[0] == 77 {
+			v, _ = args[1].(int)
+			if v == got {
+				got++
+			}
+		}
+		if v <= -2 {
+			late++
+		}
+		mu.Unlock()
+		if v == -1 {
+			select {
+			case entered <- struct{}{}:
+			default:
+			}
+			<-gate
 		}
 	}, 77)
 	for i := 0; i < n; i++ {
@@ -650,17 +678,154 @@ func rsCase(n int) string {
 		}
 		time.Sleep(200 * time.Microsecond)
 	}
-	s.Stop()
+	if burst > 0 {
+		// the owner gets busy (blocked inside the listener), the burst piles up behind it, Stop comes from outside
+		event.GetGlobalEC().Publish(name, -1)
+		select {
+		case <-entered:
+		case <-time.After(1500 * time.Millisecond):
+		}
+		for i := 0; i < burst; i++ {
+			if i%2 == 0 {
+				event.GetGlobalEC().Publish(name, -2-i)
+			} else {
+				ec.Publish(name, -2-i)
+			}
+		}
+	}
+	// Stop comes from this goroutine's side while the owner is (burst > 0) still inside the listener; it must return
+	// without waiting for that listener. If it does not (a lock held across the listener call), the listener is let go
+	// after the watchdog interval so that the case ends, and the report says so (stopwait=1).
+	stopped := make(chan struct{})
+	go func() {
+		defer func() { recover(); close(stopped) }()
+		s.Stop()
+	}()
+	stopWait := false
+	select {
+	case <-stopped:
+	case <-time.After(time.Duration(3*hangMs) * time.Millisecond):
+		stopWait = true
+		hangs++
+	}
+	close(gate)
+	if stopWait {
+		select {
+		case <-stopped:
+		case <-time.After(time.Duration(3*hangMs) * time.Millisecond):
+		}
+	}
 	time.Sleep(2 * time.Millisecond)
 	mu.Lock()
 	g1 := got
 	mu.Unlock()
+	before := len(ec.GetChanEvent())
 	event.GetGlobalEC().Publish(name, g1)
+	after := len(ec.GetChanEvent())
 	time.Sleep(5 * time.Millisecond)
 	mu.Lock()
 	defer mu.Unlock()
-	dereg := got == g1 && len(ec.GetChanEvent()) == 0
-	return fmt.Sprintf("got=%d owner=%d dereg=%d", got, hx.B2i(ownerOK), hx.B2i(dereg))
+	dereg := got == g1 && after <= before
+	out := fmt.Sprintf("got=%d owner=%d dereg=%d", got, hx.B2i(ownerOK), hx.B2i(dereg))
+	if burst > 0 {
+		out += fmt.Sprintf(" late=%d", late)
+	}
+	if stopWait {
+		out += " stopwait=1"
+	}
+	return out
+}
+
+// lockstepEC is a local centre registered with the global centre through a wrapper whose GetChanEvent() makes the
+// concurrent publishers look at the queue in lockstep: every publisher's i-th look waits (a few ms at most) until all
+// publishers have arrived at their i-th look. Whatever a publisher does between two looks at the queue, the others do too.
+type lockstepEC struct {
+	*event.LocalEventCenter
+	mu      sync.Mutex
+	p       int
+	looks   map[uint64]int
+	arrived map[int]int
+	gates   map[int]chan struct{}
+}
+
+func (s *lockstepEC) GetChanEvent() event.ChanEvent {
+	g := goid()
+	s.mu.Lock()
+	i := s.looks[g]
+	s.looks[g]++
+	s.arrived[i]++
+	ch := s.gates[i]
+	if ch == nil {
+		ch = make(chan struct{})
+		s.gates[i] = ch
+	}
+	if s.arrived[i] == s.p {
+		close(ch)
+	}
+	s.mu.Unlock()
+	select {
+	case <-ch:
+	case <-time.After(5 * time.Millisecond):
+	}
+	return s.LocalEventCenter.GetChanEvent()
+}
+
+// concFullCase: `pubs` goroutines publish one global event each, at the same moment, to a centre whose 999-slot queue
+// has `free` slots left (and to a second, empty centre): min(pubs, free) events are queued, the others are dropped,
+// nobody blocks, and the second centre receives all of them.
+func concFullCase(pubs, free int) string {
+	rsNo++
+	name := fmt.Sprintf("cfull%d-%d", caseNo, rsNo)
+	if pubs < 1 || pubs > 16 || free < 0 || free > 999 {
+		return "bad-op"
+	}
+	w := &lockstepEC{LocalEventCenter: event.NewLocalEventCenter(false), p: pubs,
+		looks: map[uint64]int{}, arrived: map[int]int{}, gates: map[int]chan struct{}{}}
+	other := event.NewLocalEventCenter(false)
+	q := w.LocalEventCenter.GetChanEvent()
+	for i := 0; i < 999-free; i++ {
+		q <- &event.EObj{EventName: name, Args: []interface{}{-1}}
+	}
+	event.GetGlobalEC().Subscribe(name, w)
+	other.GSubscribe(name, func(args ...interface{}) {})
+	var done int32
+	start := make(chan struct{})
+	for p := 0; p < pubs; p++ {
+		go func(p int) {
+			<-start
+			event.GetGlobalEC().Publish(name, p)
+			atomic.AddInt32(&done, 1)
+		}(p)
+	}
+	close(start)
+	seen, idle := int32(0), 0
+	for idle < hangMs {
+		d := atomic.LoadInt32(&done)
+		if int(d) == pubs {
+			break
+		}
+		if d != seen {
+			seen, idle = d, 0
+		}
+		idle++
+		time.Sleep(time.Millisecond)
+	}
+	blocked := pubs - int(atomic.LoadInt32(&done))
+	out := fmt.Sprintf("q=%d blocked=%d other=%d", len(q), blocked, len(other.GetChanEvent()))
+	if blocked > 0 {
+		hangs++
+	}
+	// let blocked publishers go
+	event.GetGlobalEC().Unsubscribe(name, w)
+	for i := 0; i < 2000 && int(atomic.LoadInt32(&done)) < pubs; i++ {
+		select {
+		case <-q:
+		case <-time.After(time.Millisecond):
+		}
+	}
+	other.Clear()
+	w.LocalEventCenter.Clear()
+	return out
 }
 
 // concCase: P goroutines publish N global events each to `cs` subscribed centres.
@@ -828,7 +993,7 @@ func exec(op string) string {
 		if k.tmpls[tn] != nil {
 			return "dup"
 		}
-		k.tmpls[tn] = &tmpl{bound: parseInts(b, "."), fn: fn, script: sc}
+		k.tmpls[tn] = &tmpl{bound: parseInts(b, "."), fn: fn, script: sc, spare: hx.KVInt(ws, "x") % 8}
 		return "ok"
 	case "do":
 		s, okS := hx.KV(ws, "ops")
@@ -876,7 +1041,9 @@ func exec(op string) string {
 		}
 		return fmt.Sprintf("q=%d", len(ct.loc.GetChanEvent()))
 	case "rs":
-		return hx.Guard(func() string { return rsCase(hx.KVInt(ws, "n")) })
+		return hx.Guard(func() string { return rsCase(hx.KVInt(ws, "n"), hx.KVInt(ws, "burst")) })
+	case "concfull":
+		return hx.Guard(func() string { return concFullCase(hx.KVInt(ws, "pubs"), hx.KVInt(ws, "free")) })
 	case "concreg":
 		return hx.Guard(func() string { return concRegCase(hx.KVInt(ws, "workers"), hx.KVInt(ws, "rounds")) })
 	case "concsub":
@@ -904,6 +1071,16 @@ func (g *gen) args() string {
 		xs[i] = r.Intn(10)
 	}
 	return joinInts(xs, "_")
+}
+
+// spare: two templates in three hand their bound arguments over in a slice with 1-4 unused slots behind them
+func (g *gen) spare() string {
+	r := g.h.R
+	if r.Intn(3) == 0 {
+		return ""
+	}
+	g.h.Count("def.bound-args-with-spare-capacity")
+	return fmt.Sprintf(" x=%d", 1+r.Intn(4))
 }
 
 func (g *gen) centreIdx() int {
@@ -1030,7 +1207,7 @@ func (g *gen) genCase() []string {
 		if maxScript > 0 && r.Intn(3) != 0 {
 			sc = g.script(maxScript, sw)
 		}
-		lines = append(lines, fmt.Sprintf("def t=%d b=%s f=%d s=%s", t, joinInts(b, "."), fn, sc))
+		lines = append(lines, fmt.Sprintf("def t=%d b=%s f=%d s=%s%s", t, joinInts(b, "."), fn, sc, g.spare()))
 	}
 	if r.Intn(40) == 0 {
 		h.Count("malformed.def")
@@ -1180,7 +1357,7 @@ func (g *gen) nestedArgsCase() []string {
 	lines := []string{"reset cs=" + kind}
 	nt := 2 + r.Intn(3)
 	for t := 1; t <= nt; t++ {
-		nb := 1 + r.Intn(3)
+		nb := r.Intn(4)
 		b := make([]int, nb)
 		for i := range b {
 			b[i] = 10*t + i
@@ -1198,10 +1375,11 @@ func (g *gen) nestedArgsCase() []string {
 		if r.Intn(2) == 0 {
 			fn = r.Intn(8)
 		}
-		lines = append(lines, fmt.Sprintf("def t=%d b=%s f=%d s=%s", t, joinInts(b, "."), fn, strings.Join(sc, ";")))
+		lines = append(lines, fmt.Sprintf("def t=%d b=%s f=%d s=%s%s", t, joinInts(b, "."), fn, strings.Join(sc, ";"), g.spare()))
 	}
 	for t := 1; t <= nt; t++ {
-		lines = append(lines, fmt.Sprintf("do ops=s.%d.%d.%d.1", r.Intn(nc), 1+r.Intn(2), t))
+		// GSubscribe / SubscribeNoCheck mostly, the plain (checked) Subscribe now and then
+		lines = append(lines, fmt.Sprintf("do ops=s.%d.%d.%d.%d", r.Intn(nc), 1+r.Intn(2), t, hx.B2i(r.Intn(3) != 0)))
 	}
 	for c := 0; c < nc; c++ {
 		for e := 1; e <= 2; e++ {
@@ -1229,7 +1407,7 @@ func (g *gen) receiverCase() []string {
 		for i := range b {
 			b[i] = 10*t + i
 		}
-		lines = append(lines, fmt.Sprintf("def t=%d b=%s f=%d s=", t, joinInts(b, "."), fn))
+		lines = append(lines, fmt.Sprintf("def t=%d b=%s f=%d s=%s", t, joinInts(b, "."), fn, g.spare()))
 	}
 	type ent struct{ tag, fn, recv int }
 	live := map[int][]ent{}
@@ -1284,6 +1462,123 @@ func (g *gen) receiverCase() []string {
 		lines = append(lines, fmt.Sprintf("do ops=p.0.%d.%d", e, r.Intn(10)))
 	}
 	lines = append(lines, "do ops=p.0.1.7;p.0.2.7")
+	return lines
+}
+
+// sharedCase: several listeners of ONE event name share a callback pointer on the light centre (SubscribeNoCheck
+// duplicates of one function, or one method value under several receivers). They leave in any order - the newest
+// first as often as not - by id or by receiver; a checked Subscribe of the same callback in between must be refused;
+// once a single one is left the plain Unsubscribe(name, cb) must remove it (unambiguous), after which the callback
+// can be subscribed again.
+func (g *gen) sharedCase() []string {
+	h, r := g.h, g.h.R
+	h.Count("family.shared-pointer")
+	lines := []string{"reset cs=T"}
+	fn := 1 + r.Intn(3)
+	for t := 1; t <= 9; t++ {
+		lines = append(lines, fmt.Sprintf("def t=%d b=%d f=%d s=", t, 10*t, fn))
+	}
+	e := 1 + r.Intn(2)
+	k := 2 + r.Intn(3)
+	byRecv := r.Intn(2) == 0
+	pub := func() { lines = append(lines, fmt.Sprintf("do ops=p.0.%d.%d", e, r.Intn(10))) }
+	var live []int
+	for t := 1; t <= k; t++ {
+		switch {
+		case byRecv:
+			lines = append(lines, fmt.Sprintf("do ops=sr.0.%d.%d.%d", e, t, t))
+		case t == 1 && r.Intn(2) == 0:
+			lines = append(lines, fmt.Sprintf("do ops=s.0.%d.%d.0", e, t))
+		default:
+			lines = append(lines, fmt.Sprintf("do ops=s.0.%d.%d.1", e, t))
+		}
+		live = append(live, t)
+	}
+	pub()
+	tag := k + 1
+	for len(live) > 1 {
+		j := len(live) - 1
+		if r.Intn(2) == 0 {
+			j = r.Intn(len(live))
+		}
+		t := live[j]
+		if byRecv && r.Intn(2) == 0 {
+			lines = append(lines, fmt.Sprintf("do ops=ur.0.%d.%d.%d", e, fn, t))
+		} else {
+			lines = append(lines, fmt.Sprintf("do ops=u.0.%d.%d", e, t))
+		}
+		live = append(live[:j], live[j+1:]...)
+		pub()
+		if r.Intn(3) == 0 && tag <= 8 {
+			h.Count("op.checked-subscribe-of-shared-pointer")
+			lines = append(lines, fmt.Sprintf("do ops=s.0.%d.%d.0", e, tag)) // refused: the callback is still registered
+			tag++
+			pub()
+		}
+	}
+	h.Count("op.unsubscribe-by-pointer-last-of-shared")
+	lines = append(lines, fmt.Sprintf("do ops=f.0.%d.%d", e, fn))
+	pub()
+	lines = append(lines, fmt.Sprintf("do ops=s.0.%d.%d.0", e, tag)) // accepted: nobody holds the callback any more
+	pub()
+	if r.Intn(2) == 0 {
+		lines = append(lines, fmt.Sprintf("do ops=f.0.%d.%d", e, fn))
+		pub()
+	}
+	return lines
+}
+
+// swapCase: listeners that, while an event is being delivered, unsubscribe other listeners of that very event AND
+// subscribe new ones to it (a swap: the list has its old size again, or one more / one less), in either order; any
+// listener may come first (map order), so each one targets others. Local, channel-mode and light centres.
+func (g *gen) swapCase() []string {
+	h, r := g.h, g.h.R
+	h.Count("family.swap-inside-listener")
+	kind := []string{"L", "L", "C", "T", "L,L"}[r.Intn(5)]
+	lines := []string{"reset cs=" + kind}
+	n := 2 + r.Intn(3)
+	fresh := n + 1
+	for t := 1; t <= n; t++ {
+		var sc []string
+		if r.Intn(4) != 0 {
+			k := 1 + r.Intn(2)
+			var us, ss []string
+			for i := 0; i < k && i < n-1; i++ {
+				v := 1 + (t+i+r.Intn(n-1))%n
+				if v == t {
+					v = 1 + t%n
+				}
+				us = append(us, fmt.Sprintf("u.0.1.%d", v))
+			}
+			ks := len(us)
+			if r.Intn(4) == 0 {
+				ks = len(us) - 1 + 2*r.Intn(2)
+			}
+			for i := 0; i < ks; i++ {
+				ss = append(ss, fmt.Sprintf("s.0.1.%d.%d", fresh, r.Intn(2)))
+				fresh++
+			}
+			if r.Intn(2) == 0 {
+				sc = append(us, ss...)
+			} else {
+				sc = append(ss, us...)
+			}
+		}
+		lines = append(lines, fmt.Sprintf("def t=%d b=%d f=%d s=%s", t, t, 7+t, strings.Join(sc, ";")))
+	}
+	for t := n + 1; t < fresh; t++ {
+		f := 7 + t
+		if f > 15 {
+			f = r.Intn(8)
+		}
+		lines = append(lines, fmt.Sprintf("def t=%d b=%d f=%d s=", t, t, f))
+	}
+	for t := 1; t <= n; t++ {
+		lines = append(lines, fmt.Sprintf("do ops=s.0.1.%d.%d", t, r.Intn(2)))
+	}
+	for i := 0; i < 2; i++ {
+		lines = append(lines, fmt.Sprintf("do ops=p.0.1.%d", r.Intn(10)), "drain c=0 n=50")
+	}
 	return lines
 }
 
@@ -1402,9 +1697,23 @@ func TestRun(t *testing.T) {
 			lines = g.nestedArgsCase()
 		case x >= 80:
 			lines = g.receiverCase()
+		case x >= 76:
+			lines = g.sharedCase()
+		case x >= 72:
+			lines = g.swapCase()
+		case x == 71:
+			// concurrent publishers at the queue limit, looking at the queue in lockstep
+			h.Count("family.concurrent-at-queue-limit")
+			lines = []string{"reset cs=L", fmt.Sprintf("concfull pubs=%d free=%d", 2+h.R.Intn(4), h.R.Intn(4))}
 		case x < 3:
 			h.Count("family.runservice")
-			lines = []string{"reset cs=L", fmt.Sprintf("rs n=%d", h.R.Intn(40))}
+			burst := 0
+			if h.R.Intn(2) == 0 {
+				// Stop while the owner is busy and publications are still queued
+				h.Count("op.stop-with-queued-events")
+				burst = 1 + h.R.Intn(5)
+			}
+			lines = []string{"reset cs=L", fmt.Sprintf("rs n=%d burst=%d", h.R.Intn(40), burst)}
 		case x < 5 && i%4 == 0:
 			// concurrent first subscriptions to one new global name (D17: getECList must LoadOrStore)
 			h.Count("family.concurrent-subscribe")
